@@ -605,6 +605,9 @@ def refine_droplet(
 
     # apply the mask
     data_mask = phase_field.data[mask]
+    if data_mask.size == 0:
+        # the droplet does not cover any support point, so there is nothing to fit
+        return droplet
 
     # determine the coordinate constraints and only vary the free data points
     data_flat = structured_to_unstructured(droplet.data)  # unstructured data
